@@ -75,6 +75,7 @@ class Profile:
     causal_sync: bool = False                   # shrink kernels so that every synchronising call returns after the work it waits for
     p_sync_touch: float = 0.0                   # a sync record ends exactly when a kernel of its stream starts
     p_fifo_overlap: float = 0.0                 # a kernel starts 1-2 units before the previous kernel of its stream ends (tolerated -1 edges)
+    unique_pad_names: bool = False              # the padding operators carry names of their own, different per rank (a vocabulary beyond 127 symbols)
     shared_names: bool = False                  # a host operator and a device kernel may carry the same name (torch.compile: op and Triton kernel)
     more_inner_annotations: bool = False        # user annotations with operator children inside operators (events without graph nodes inside the nest)
     n_pad: Tuple[int, int] = (0, 0)              # extra small host ops on their own thread (pushes row ids past 127 / 32767)
@@ -332,8 +333,8 @@ class Gen:
                     continue
                 b, c1 = rec["ts"] + rec["dur"], call["ts"] + call["dur"]
                 for k in dev:
-                    if k.get("cat") == "cuda_sync" or k.get("cat") == "gpu_user_annotation":
-                        continue
+                    if k.get("cat") == "cuda_sync" or "correlation" not in k.get("args", {}):
+                        continue        # sync records, and annotation spans on the device that no call launched
                     if rec["name"] == "Stream Sync" and k["args"].get("stream") != rec["args"].get("stream"):
                         continue
                     # work that starts before the record ends is waited for; work starting in the very instant the record ends is not
@@ -344,7 +345,7 @@ class Gen:
             e.pop("_sync", None)
         npad = rng.randint(*p.n_pad)
         for k in range(npad):
-            host.append({"ph": "X", "cat": "cpu_op", "name": rng.choice(CPU_OPS), "pid": host_pid, "tid": 424242,
+            host.append({"ph": "X", "cat": "cpu_op", "name": (f"aten::pad_r{rank}_{k}" if p.unique_pad_names else rng.choice(CPU_OPS)), "pid": host_pid, "tid": 424242,
                          "ts": (k * 2) % max(1, T), "dur": 0 if T < 2 * npad else 1, "args": {"External id": self.next_ext + k}})
         events = host + dev
         # first entry: host operator without correlation
@@ -426,7 +427,7 @@ def gen_sync_scenario(seed: int, case_no: int) -> dict:
     evs.append(X("kernel", rng.choice(COMPUTE_KERNELS + COMM_KERNELS), gpu_pid, s1, k1s, k1d, stream=s1, device=gpu_pid, correlation=c1))
     # the blocking call: starts after operator 1 and before k1 ends; returns when or after k1 ends
     sa = rng.randint(t + d1, max(t + d1, k1e - 2))
-    sb = k1e + rng.randint(0, 3)
+    sb = max(k1e + rng.randint(0, 3), sa + 1)        # the call lasts, and returns no earlier than k1 ends
     dev_sync = rng.random() < 0.3
     cs = corr[0]; corr[0] += 1
     nested = rng.random() < 0.5
@@ -441,9 +442,18 @@ def gen_sync_scenario(seed: int, case_no: int) -> dict:
         evs.append({"ph": "X", "cat": "cuda_sync", "name": "Stream Sync", "pid": gpu_pid, "tid": s1, "ts": ra, "dur": k1e - ra,
                     "args": {"cuda_sync_kind": "Stream Sync", "stream": s1, "correlation": cs, "External id": evs[-1]["args"]["External id"]}})
     tail_start = max(e["ts"] + e["dur"] for e in evs if e["tid"] == 1 and e["pid"] == host_pid) + rng.randint(0, 3)
-    evs.append(X("cpu_op", rng.choice(CPU_OPS), host_pid, 1, tail_start, rng.randint(5, 80)))
+    tail_dur = rng.randint(5, 80)
+    evs.append(X("cpu_op", rng.choice(CPU_OPS), host_pid, 1, tail_start, tail_dur))
+    launch_at_return = rng.random() < 0.35
+    if launch_at_return:
+        # a launch right after the blocking call; in the tie variant everything happens in the instant the call returns: the wait record
+        # ended then (sb == k1e), the next operator starts then, its launch call starts then and the (zero-length) activity runs then
+        c3 = corr[0]; corr[0] += 1
+        evs.append(X("cuda_runtime", "cudaLaunchKernel", host_pid, 1, tail_start, rng.randint(1, 3), correlation=c3))
+        evs.append(X("kernel", rng.choice(COMPUTE_KERNELS), gpu_pid, s1, max(tail_start, k1e), rng.choice([0, 0, rng.randint(1, 4)]), stream=s1,
+                     device=gpu_pid, correlation=c3))
     # thread 2
-    if rng.random() < 0.85:
+    if not launch_at_return and rng.random() < 0.85:
         # launched while thread 1 is already blocked: work enqueued before the call would have to be waited for
         o2s = rng.randint(0, max(0, k1e - 6))
         l2 = rng.randint(max(o2s + 1, sa), max(o2s + 1, sa, k1e - 1))
@@ -659,6 +669,8 @@ _reg(Profile(name="idle", tmax_choices=(8, 12, 20, 40, 110, 600), n_ranks=(1, 2)
 _reg(Profile(name="idle_steps", tmax_choices=(20, 40, 110), n_ranks=(1, 2), n_steps=(0, 3), p_launch=0.6, p_orphan_kernel=0.3, n_streams=(1, 2)))
 _reg(Profile(name="queue", tmax_choices=(6, 8, 12, 20, 40), n_ranks=(1, 2), p_launch=0.7, p_mem_launch=0.4, p_same_ts_as_launch=0.45, p_missing_kernel=0.1,
              p_orphan_kernel=0.2, p_kernel_zero=0.15, n_streams=(1, 3), p_zero_dur=0.1, max_children=5))
+_reg(Profile(name="queue_skew", tmax_choices=(8, 12, 20, 40), n_ranks=(1, 2), p_launch=0.7, p_mem_launch=0.4, p_same_ts_as_launch=0.2, p_missing_kernel=0.1,
+             p_orphan_kernel=0.1, p_kernel_zero=0.1, n_streams=(1, 3), p_zero_dur=0.1, max_children=5, kernel_causal=False))
 _reg(Profile(name="queue_wide", tmax_choices=(110, 600, 5000), n_ranks=(1, 2), p_launch=0.7, p_mem_launch=0.4, n_streams=(1, 3), n_steps=(0, 3)))
 _reg(Profile(name="meta", n_steps=(0, 3), n_ranks=(2, 3), tmax_choices=(12, 24, 40, 110), p_launch=0.55, p_mem_launch=0.35, p_orphan_kernel=0.2, p_sync=0.2))
 _reg(Profile(name="kbreak", device="free", n_free_kernels=(3, 18), tmax_choices=(6, 10, 16, 30, 110), kernel_causal=False, p_launch=0.3, n_ranks=(1, 3),
@@ -683,6 +695,8 @@ _reg(Profile(name="kseq", tmax_choices=(24, 40, 110, 600), n_ranks=(1, 2), n_thr
 _reg(Profile(name="cp", tmax_choices=(20, 40, 110, 600), n_ranks=(1, 2), n_threads=(1, 2), max_depth=4, p_zero_dur=0.0, p_launch=0.55, p_mem_launch=0.3,
              p_missing_kernel=0.1, p_orphan_kernel=0.1, n_steps=(0, 3), p_kernel_zero=0.03, p_same_ts_as_launch=0.1, p_sync=0.6, causal_sync=True,
              p_sync_touch=0.8, more_inner_annotations=True, shared_names=True, n_streams=(1, 3), epoch_choices=(0, 1000000)))
+_reg(Profile(name="meta_bigvocab", n_steps=(0, 2), n_ranks=(2, 3), tmax_choices=(24, 40, 110), p_launch=0.5, p_mem_launch=0.3, n_pad=(60, 100),
+             unique_pad_names=True))
 _reg(Profile(name="cp_neg", tmax_choices=(20, 40, 110), n_ranks=(1, 1), n_threads=(1, 2), max_depth=4, p_zero_dur=0.0, p_launch=0.6, p_mem_launch=0.3,
              p_missing_kernel=0.1, n_steps=(0, 2), p_same_ts_as_launch=0.1, p_sync=0.3, causal_sync=True, p_fifo_overlap=0.5, kernel_causal=False,
              n_streams=(1, 2), epoch_choices=(0, 1000000)))
